@@ -296,6 +296,7 @@ Definition wfl (s : string) : option R :=
 (* primitives for decks whose only numbers are 0 and 1 *)
 Definition wP : prims R := {|
   fl := wfl;
+  tf := wfl;
   tz := fun x => if Reqb x 1 then 1%Z else 0%Z;
   rnd := fun x => if Reqb x 1 then 1%Z else 0%Z;
   pw := fun x _ => x;
